@@ -228,6 +228,10 @@ class ExprMixin:
                     deps |= kv.deps
             return base.add_deps(deps).add_tags("slice")
         key = self.eval(sl)
+        if "sliceobj" in key.tags:
+            # x[slice(a, b)] is x[a:b]: a view of the same storage
+            v = base.add_deps(key.deps).add_tags("slice")
+            return v.with_(extra=None) if base.extra is not None else v
         if base.extra is not None and base.extra[0] == "tuple" and key.has_const and isinstance(key.const, int):
             items = base.extra[1]
             if -len(items) <= key.const < len(items):
@@ -336,9 +340,10 @@ class ExprMixin:
                 known = None
                 if l.has_const:
                     known = l.const is None
-                elif (l.refs or l.callee) and not l.locs and not (l.tags & {"maybe-unset", "maybe-unbound",
-                                                                                  "maybe-none"}):
-                    known = False
+                elif (l.refs or l.callee or l.locs) and not (l.tags & {"maybe-unset", "maybe-unbound",
+                                                                                 "maybe-none"}) and \
+                        all(isinstance(x, tuple) and len(x) == 2 and x[1] and x[1][-1] == ".values" for x in l.locs):
+                    known = False           # objects, and the .values array of a pandas object, are not None
                 if known is not None:
                     return Val(const=known if isinstance(op, ast.Is) else not known, deps=deps)
             if l.has_const and r.has_const and isinstance(op, (ast.Eq, ast.NotEq, ast.Lt, ast.LtE, ast.Gt, ast.GtE)):
